@@ -30,7 +30,7 @@ pub fn base_cfg(property: &str, tier: &str) -> CampaignCfg {
         runs: 0,
         max_wall_s: if tier == "quick" { 240 } else { 3000 },
         threads: env_u64("VERIF_THREADS", 16) as usize,
-        replay_dir: format!("{root}/replays"),
+        replay_dir: std::env::var("VERIF_REPLAY_DIR").unwrap_or_else(|_| format!("{root}/replays")),
         known_path: format!("{root}/known_findings.json"),
         evidence_path: std::env::var("VERIF_EVIDENCE").unwrap_or_else(|_| format!("{root}/evidence/{property}.json")),
         level: "exploration".into(),
